@@ -76,6 +76,10 @@ def convert_data_attributes(
             # The attribute is replaced by the statement it spells (the
             # namespace attributes must stay aligned with ``attrs``).
             ns_attrs.pop((default, attr['name']), None)
+            if (ns, name) in ns_attrs:
+                raise LanguageError(
+                    "Statement given twice on the same element.",
+                    attr['name'])
             ns_attrs[ns, name] = attr['value']
             attrs.pop(i - d)
             d += 1
